@@ -110,6 +110,7 @@ SCHEMAS = [
     ("prefix_items", {"type": "array", "prefixItems": [{"type": "integer"}, {"enum": ["x", "y"]}],
                       "items": {"type": "boolean"}, "minItems": 1, "maxItems": 4}),
     ("free_object", {"type": "object"}),
+    ("date_only", {"type": "string", "format": "date"}),
     # two multipleOf values whose least common multiple does not fit 32 bits (was: silent wrap, see known_findings fixed:)
     ("lcm_overflow", {"type": "integer", "allOf": [{"multipleOf": 65536}, {"multipleOf": 65537}]}),
     ("ws_flexible", {"x-guidance": {"whitespace_flexible": True}, "type": "object",
@@ -119,7 +120,9 @@ SCHEMAS = [
 
 
 # candidate instance texts offered in addition to the generated ones
-EXTRA_INSTANCES = {"lcm_overflow": ["65536", "131072", "0", "4295032832"]}
+EXTRA_INSTANCES = {"lcm_overflow": ["65536", "131072", "0", "4295032832"],
+                   # the recorded finding: February 29 is accepted in every year
+                   "date_only": ['"2023-02-29"', '"2024-02-29"', '"2023-02-30"', '"1900-02-29"']}
 
 
 def repo_samples():
